@@ -71,6 +71,7 @@ func checkClosure(ts sgen.Tables, s *gtfs.Static) (bound int, err error) {
 		}
 	}
 	// forest
+	roots := make([]*gtfs.Stop, len(s.Stops))
 	for i := range s.Stops {
 		cur, steps := &s.Stops[i], 0
 		for cur.Parent != nil {
@@ -80,28 +81,43 @@ func checkClosure(ts sgen.Tables, s *gtfs.Static) (bound int, err error) {
 				return 0, vt.FailSig("stop-parent-cycle", "Stops[%d] (%q): following Parent does not reach a root within %d steps - the hierarchy has a cycle, Root() would never return", i, s.Stops[i].Id, len(s.Stops))
 			}
 		}
-		done := make(chan *gtfs.Stop, 1)
-		st := &s.Stops[i]
-		go func() { done <- st.Root() }()
-		select {
-		case r := <-done:
-			if r != cur {
-				return 0, vt.Failf("Stops[%d].Root() = %q, the parent walk ends at %q", i, r.Id, cur.Id)
+		roots[i] = cur
+	}
+	// every chain is acyclic (bounded walk above), so Root() terminates; the watchdog is a backstop only
+	type rootRes struct {
+		i int
+		r *gtfs.Stop
+	}
+	done := make(chan rootRes, 1)
+	go func() {
+		for i := range s.Stops {
+			if r := s.Stops[i].Root(); r != roots[i] {
+				done <- rootRes{i, r}
+				return
 			}
-		case <-time.After(20 * time.Second):
-			return 0, vt.FailSig("root-hangs", "Stops[%d].Root() did not return within 20s on an acyclic hierarchy of %d stops", i, len(s.Stops))
 		}
+		done <- rootRes{-1, nil}
+	}()
+	select {
+	case rr := <-done:
+		if rr.i >= 0 {
+			return 0, vt.Failf("Stops[%d].Root() = %q, the parent walk ends at %q", rr.i, rr.r.Id, roots[rr.i].Id)
+		}
+	case <-time.After(60 * time.Second):
+		return 0, vt.FailSig("root-hangs", "Root() did not return within 60s on an acyclic hierarchy of %d stops", len(s.Stops))
 	}
 	// routes
 	if tb := ts.Get("routes.txt"); tb != nil {
+		routeRows := map[string][][]string{}
+		for _, row := range tb.Rows {
+			id, _ := cell(tb, row, "route_id")
+			routeRows[id] = append(routeRows[id], row)
+		}
 		for i := range s.Routes {
 			r := &s.Routes[i]
 			bound++
 			ok := false
-			for _, row := range tb.Rows {
-				if id, _ := cell(tb, row, "route_id"); id != r.Id {
-					continue
-				}
+			for _, row := range routeRows[r.Id] {
 				aid, _ := cell(tb, row, "agency_id")
 				if (aid != "" && aid == r.Agency.Id) || (aid == "" && len(s.Agencies) == 1 && r.Agency == &s.Agencies[0]) {
 					ok = true
@@ -114,17 +130,16 @@ func checkClosure(ts sgen.Tables, s *gtfs.Static) (bound int, err error) {
 	}
 	// transfers
 	if tb := ts.Get("transfers.txt"); tb != nil {
+		pairs := map[[2]string]bool{}
+		for _, row := range tb.Rows {
+			f, _ := cell(tb, row, "from_stop_id")
+			t, _ := cell(tb, row, "to_stop_id")
+			pairs[[2]string{f, t}] = true
+		}
 		for i := range s.Transfers {
 			x := &s.Transfers[i]
 			bound += 2
-			ok := false
-			for _, row := range tb.Rows {
-				f, _ := cell(tb, row, "from_stop_id")
-				t, _ := cell(tb, row, "to_stop_id")
-				if f == x.From.Id && t == x.To.Id {
-					ok = true
-				}
-			}
+			ok := pairs[[2]string{x.From.Id, x.To.Id}]
 			if !ok {
 				return 0, vt.Failf("Transfers[%d] links %q -> %q, which no transfers.txt row names", i, x.From.Id, x.To.Id)
 			}
@@ -134,13 +149,35 @@ func checkClosure(ts sgen.Tables, s *gtfs.Static) (bound int, err error) {
 	}
 	// trips and stop times
 	tripsTb, stTb := ts.Get("trips.txt"), ts.Get("stop_times.txt")
+	tripRows := map[string][][]string{}
+	if tripsTb != nil {
+		for _, row := range tripsTb.Rows {
+			id, _ := cell(tripsTb, row, "trip_id")
+			tripRows[id] = append(tripRows[id], row)
+		}
+	}
+	type stKey struct {
+		trip, stop string
+		seq        int
+	}
+	stRows := map[stKey]bool{}
+	if stTb != nil {
+		for _, row := range stTb.Rows {
+			tid, _ := cell(stTb, row, "trip_id")
+			sid, _ := cell(stTb, row, "stop_id")
+			sq, _ := cell(stTb, row, "stop_sequence")
+			if v, err := strconv.Atoi(sq); err == nil {
+				stRows[stKey{tid, sid, v}] = true
+			}
+		}
+	}
 	for i := range s.Trips {
 		t := &s.Trips[i]
 		bound += 2
 		ok := false
 		if tripsTb != nil {
-			for _, row := range tripsTb.Rows {
-				id, _ := cell(tripsTb, row, "trip_id")
+			for _, row := range tripRows[t.ID] {
+				id := t.ID
 				rid, _ := cell(tripsTb, row, "route_id")
 				sid, _ := cell(tripsTb, row, "service_id")
 				shid, _ := cell(tripsTb, row, "shape_id")
@@ -162,17 +199,7 @@ func checkClosure(ts sgen.Tables, s *gtfs.Static) (bound int, err error) {
 		for j := range t.StopTimes {
 			st := &t.StopTimes[j]
 			bound++
-			ok := false
-			if stTb != nil {
-				for _, row := range stTb.Rows {
-					tid, _ := cell(stTb, row, "trip_id")
-					sid, _ := cell(stTb, row, "stop_id")
-					sq, _ := cell(stTb, row, "stop_sequence")
-					if v, err := strconv.Atoi(sq); err == nil && tid == t.ID && sid == st.Stop.Id && v == st.StopSequence {
-						ok = true
-					}
-				}
-			}
+			ok := stRows[stKey{t.ID, st.Stop.Id, st.StopSequence}]
 			if !ok {
 				return 0, vt.Failf("Trips[%d] (%q).StopTimes[%d] (sequence %d) is bound to stop %q, which no stop_times.txt row of that trip and sequence names", i, t.ID, j, st.StopSequence, st.Stop.Id)
 			}
@@ -202,9 +229,12 @@ func TestC03(t *testing.T) {
 		o.ExplicitDefaults = rapid.Bool().Draw(t, "explicit")
 		f, _ := sgen.GenFeed(t, o)
 		ts := f.Tables()
-		inflate := tierThorough() && rapid.IntRange(0, 9).Draw(t, "inflate") == 0
+		inflate := rapid.IntRange(0, 199).Draw(t, "inflate") < map[bool]int{true: 6, false: 1}[tierThorough()]
 		if inflate {
 			ts = sgen.Inflate(ts, rapid.SampledFrom([]int{300, 1100, 2100}).Draw(t, "inflateTo"))
+			if !tierThorough() {
+				ts = sgen.Inflate(f.Tables(), 300)
+			}
 		}
 		k := rapid.IntRange(0, 6).Draw(t, "nEdits")
 		mts, labels := sgen.Mutate(t, ts, k, false)
